@@ -313,6 +313,10 @@ async fn run_seg(case: &Value) -> Value {
         Ok(l) => l,
         Err(e) => return json!({"verdict": "harness-error", "why": format!("bind: {e}")}),
     };
+    // SSH: the confirmation of the subsystem request arrives after unit `confirm_after` instead of
+    // before the first data packet
+    let confirm_after = case["confirm_after_unit"].as_u64().map(|x| x as usize);
+    lis.ssh_defer_success = confirm_after.is_some() && tr == Tr::Ssh;
     let ep = lis.endpoint.clone();
     let pw = lis.ssh_password.clone();
     let plan = ClientPlan { n, pipelined, then_subsequent: false, wait_closed_before_rpcs: false, op_timeout: Duration::from_millis(2500), close_session: false };
@@ -352,6 +356,9 @@ async fn run_seg(case: &Value) -> Value {
             break;
         }
         sent += u.len();
+        if confirm_after == Some(j) {
+            conn.confirm_subsystem().await;
+        }
         if !consumed(tr, sent, j + 1, Duration::from_secs(3)).await {
             not_exercised = Some(format!("client did not consume unit {j} within 3 s"));
             break;
@@ -862,6 +869,17 @@ pub fn run_c06(cfg: &Cfg) -> i32 {
                     "class": format!("stream-pauses-at-buffer-size:{}{}", t, match d { -1 => "-1", 0 => "", _ => "+1" }), "close_after": false, "end_at": end, "no_remap": true}));
             }
         }
+        // (3d) SSH: the confirmation of the subsystem request (SSH_MSG_CHANNEL_SUCCESS) arrives
+        // between two channel-data packets of the hello - RFC 4254 does not order it relative to data
+        if tr == Tr::Ssh {
+            let pads = vec![8];
+            let (_len, ends) = seg_stream_layout(1, &pads, 0, false);
+            let h = ends[0];
+            for (c, what) in [(1usize, "after-the-first-byte"), (h / 2, "in-the-middle-of-the-hello"), (h - 3, "inside-the-hello's-delimiter"), (h, "after-the-complete-hello")] {
+                cases.push(json!({"kind": "seg", "id": 950_000 + cases.len() as u64, "tr": tr.name(), "n": 1, "pads": pads, "cuts": if c == h { vec![h] } else { vec![c, h] }, "pipelined": true, "lookalike": false,
+                    "class": format!("subsystem-confirmation-between-data-packets:{what}"), "close_after": false, "confirm_after_unit": 0, "no_remap": true}));
+            }
+        }
         // (4) 1-byte dribble of a short stream
         {
             let pads = vec![0];
@@ -1051,6 +1069,7 @@ pub fn run_c07(cfg: &Cfg) -> i32 {
                     "pending-close-session" if thorough => vec![0, 1],
                     "pending-close-session" => vec![0],
                     _ if thorough => vec![1, 3, 8],
+                    "between-request-and-reply" | "inside-reply" => vec![1, 3],
                     _ => vec![1],
                 };
                 for o in outs {
@@ -1222,6 +1241,15 @@ pub fn run_c18b(cfg: &Cfg) -> i32 {
             }
         }
     }
+    // a backlog of replies nobody reads: n requests, all but two abandoned unpolled, every reply
+    // sent at once (queue capacities between transport and session: 32 on SSH)
+    for tr in [Tr::Tls, Tr::Ssh, Tr::Cli] {
+        let ns: Vec<usize> = if cfg.thorough() { vec![8, 31, 32, 33, 34, 40, 64, 65, 66, 100, 200] } else { vec![32, 34, 40, 70] };
+        for n in ns {
+            id += 1;
+            cases.push(json!({"kind": "backlog", "id": id, "tr": tr.name(), "n": n, "keep": 2, "drop": format!("backlog-of-{n}"), "fraction": "all-but-two-abandoned-unpolled"}));
+        }
+    }
     for tr in [Tr::Tls, Tr::Ssh, Tr::Cli] {
         for polled in [false, true] {
             id += 1;
@@ -1384,8 +1412,9 @@ pub fn run_c20_lib(cfg: &Cfg) -> i32 {
         let mut r = cfg.prng("C20", idx);
         let unusual = crate::peers::UNUSUAL_KEYS[(idx as usize) % crate::peers::UNUSUAL_KEYS.len()];
         // every unusual key once, then at random
-        let pick = if (idx as usize) < crate::peers::UNUSUAL_KEYS.len() { 10 } else { r.below(12) };
+        let pick = if (idx as usize) < crate::peers::UNUSUAL_KEYS.len() { 10 } else { r.below(13) };
         let (tr, outcome, key, cert) = match pick {
+            12 => ("ssh", "server-hangs-up-on-the-password-request", "", ""),
             10 | 11 => ("tls", "unusable-key", unusual.0, unusual.1),
             0 => ("tls", "success", "client.key", "client.crt"),
             1 => ("tls", "success", "client.sec1.key", "client.crt"),
